@@ -35,7 +35,7 @@ THEOREMS = ["fasta_read_write", "fasta_rewrap_invariant", "fasta_file_lines", "f
             # round 4: esl-compstruct
             "compstruct_correct_le_pairs", "compstruct_strict_correct_symmetric", "compstruct_self_is_perfect", "compstruct_mathews_relaxes",
             # round 4: esl-compalign
-            "compalign_self_is_perfect"]
+            "compalign_self_is_perfect", "compalign_correct_le_counted"]
 
 SQFORMATS = ["fasta", "embl", "genbank", "uniprot", "ddbj", "daemon", "hmmpgmd", "ncbi", "fmindex"]
 MSAFORMATS = ["stockholm", "pfam", "a2m", "afa", "psiblast", "clustal", "clustallike", "selex", "phylip", "phylips"]
@@ -2394,23 +2394,23 @@ def corpus_cases(ctx):
                         op_run("esl-alimask", ["--rna", "--informat", "stockholm", "--outformat", "clustal", "a.sto", "m0"]),
                         op_file("g.sto", "# STOCKHOLM 1.0\ns1 A--U\ns2 -CG-\n//\n"),
                         op_run("esl-reformat", ["--nogap", "--informat", "stockholm", "clustal", "g.sto"])]})
-    # esl-compalign -p with PP lines for some sequences only: NULL ta->pp[i] dereferenced (round 4; known finding until C13-compalign-p-missing-pp lands)
-    out.append({"name": "corpus-compalign-p-missing-pp",
+    # esl-compalign -p with PP lines for some sequences only: NULL ta->pp[i] was dereferenced (round 4; repaired in 6402139): must be refused
+    out.append({"name": "corpus-regress-6402139-compalign-p-missing-pp", "expect_err": True,
                 "ops": [op_file("k.sto", "# STOCKHOLM 1.0\ns1         ACGU\ns2         AC-U\n#=GC RF    xxxx\n//\n"),
                         op_file("t.sto", "# STOCKHOLM 1.0\ns1         ACGU\n#=GR s1 PP 9*8*\ns2         AC-U\n#=GC RF    xxxx\n//\n"),
                         op_run("esl-compalign", ["-p", "--rna", "k.sto", "t.sto"])]})
-    # esl-alimanip --trim <Stockholm file with #=GR lines>: esl_sq_Copy text -> digital, xr[] one byte short (round 4, thorough tier; known finding
-    # until C13-sq-copy-xr-alloc lands); the witness file is the tree's own esl_msa_testfiles/stockholm/stockholm.good.1
+    # esl-alimanip --trim <Stockholm file with #=GR lines>: esl_sq_Copy text -> digital, xr[] one byte short (round 4, thorough tier; repaired in
+    # b033cd2); the witness file is the tree's own esl_msa_testfiles/stockholm/stockholm.good.1
     g1 = os.path.join(getattr(ctx, "c13_src", "") or "", "esl_msa_testfiles", "stockholm", "stockholm.good.1")
     if os.path.exists(g1):
         t1 = open(g1, "rb").read()
-        out.append({"name": "corpus-alimanip-trim-gr-markup", "ops": [op_file("in0", t1), op_run("esl-alimanip", ["--trim", "in0", "-"], stdin=t1)]})
-    # round 4, thorough tier with every tool in the seed-dependent stream: esl-alimanip --c-mx double fclose; esl-sfetch with an unaligned
-    # --informat on a file whose SSI index was made from an alignment ("bad offset" exception). Known findings until the proposed patches land.
-    out.append({"name": "corpus-alimanip-cmx-double-fclose",
+        out.append({"name": "corpus-regress-b033cd2-alimanip-trim-gr-markup", "ops": [op_file("in0", t1), op_run("esl-alimanip", ["--trim", "in0", "-"], stdin=t1)]})
+    # round 4, thorough tier with every tool in the seed-dependent stream: esl-alimanip --c-mx double fclose (repaired in b282134); esl-sfetch with an
+    # unaligned --informat on a file whose SSI index was made from an alignment ("bad offset" exception, repaired in e3f8b5b: refused with a message)
+    out.append({"name": "corpus-regress-b282134-alimanip-cmx-double-fclose", "expect_ok": True,
                 "ops": [op_file("aln.sto", "# STOCKHOLM 1.0\n\ns1 ACGU\ns2 ACGA\ns3 UCGA\n#=GC RF xxxx\n//\n"),
                         op_run("esl-alimanip", ["--c-mx", "out.mx", "--cn-id", "2", "--rna", "aln.sto"])]})
-    out.append({"name": "corpus-sfetch-index-format-mismatch",
+    out.append({"name": "corpus-regress-e3f8b5b-sfetch-index-format-mismatch", "expect_err": True,
                 "ops": [op_file("in0", "# STOCKHOLM 1.0\n\nseq1 GAATTC\nseq2 GAATTC\n//\n"), op_run("esl-sfetch", ["--index", "in0"]),
                         op_run("esl-sfetch", ["--informat", "ddbj", "-n", "1", "in0", "seq1"])]})
     for nm, commit, ops in RETIRED_WITNESSES:
